@@ -15,6 +15,7 @@ pub fn generate(seed: u64, dir: &Path) -> Result<(), String> {
     let (mut world, _) = loop {
         let (w, r) = gen_world(&mut rng, &opts);
         if !w.user_csv.is_empty() {
+            // keep the numeral entries the cheapest reading of the digits (see `numeral` below)
             break (w, r);
         }
     };
@@ -55,6 +56,21 @@ pub fn generate(seed: u64, dir: &Path) -> Result<(), String> {
         format!("abc-12{}漢漢ax-3b", key(&mut rng)),
         format!("{}{}{}", key(&mut rng), key(&mut rng), key(&mut rng)),
     ];
+    // a numeral with separators that this world's dictionary really joins into one token (homographs of the
+    // digits can shadow the numeral reading): found by analysing candidates with the freshly built dictionary
+    let numeral = {
+        let built = crate::dictfac::build_world(&world, dir)?;
+        let mut found = None;
+        for cand in ["1,000.5", "2,000", "3.5", "10,000", "0.5", "1,000", "一,〇〇〇", "2.0"] {
+            if let Ok(l) = crate::toksim::fresh_analyse(&built.dict, sudachi::analysis::Mode::C, None, &format!("{}と", cand)) {
+                if l.len() >= 1 && l.get(0).end() == cand.len() {
+                    found = Some(cand.to_string());
+                    break;
+                }
+            }
+        }
+        found
+    };
     let modes = ["A", "B", "C"];
     let mut threads = vec![];
     let mut order: Vec<usize> = (0..pool.len()).collect();
@@ -68,7 +84,9 @@ pub fn generate(seed: u64, dir: &Path) -> Result<(), String> {
             let mut text = String::new();
             if k == 1 {
                 // a numeral with separators as the very first token (state of the numeric joiner at the start of a path)
-                text.push_str("1,000.5");
+                if let Some(nm) = &numeral {
+                    text.push_str(nm);
+                }
             }
             for (j, idx) in order.iter().enumerate() {
                 if j >= 4 + k {
